@@ -301,6 +301,11 @@ pub mod verif {
         (status, body)
     }
 
+    /// The lease listing for the given rows.
+    pub fn leases_to_json(leases: &[crate::dhcp::pool::LeaseInfo]) -> String {
+        super::leases_to_json(leases)
+    }
+
     pub fn tokio_to_unixaddr(src: &tokio::net::unix::SocketAddr) -> erbium_net::addr::UnixAddr {
         erbium_net::addr::tokio_to_unixaddr(src)
     }
